@@ -69,8 +69,12 @@ fn main() {
             );
         }
     }
-    let subjects: Vec<PoolSubject> =
-        configs(&u, cli.tier).into_iter().map(|cfg| PoolSubject { u: u.clone(), prop, cfg }).collect();
+    let only = std::env::var("VH_TXPOOL_ONLY").ok();
+    let subjects: Vec<PoolSubject> = configs(&u, cli.tier)
+        .into_iter()
+        .filter(|c| only.as_ref().map(|o| c.name.contains(o.as_str())).unwrap_or(true))
+        .map(|cfg| PoolSubject { u: u.clone(), prop, cfg })
+        .collect();
     if let Some(path) = &cli.replay {
         let rf = load_replay(path);
         // `step` does not depend on the richness of the alphabet, so the thorough list
